@@ -244,7 +244,12 @@ func replayParent(path string) int {
 	if err != nil {
 		return 2
 	}
-	limit := time.Duration(envInt("IONSIM_STALL_S", 120)) * 10 * time.Second
+	// a case that took the stall limit in the sweep gets four times that when replayed alone
+	stallDefault := int64(120)
+	if rf.Property == "C06" {
+		stallDefault = 30
+	}
+	limit := time.Duration(envInt("IONSIM_REPLAY_LIMIT_S", 4*envInt("IONSIM_STALL_S", stallDefault))) * time.Second
 	cmd := exec.Command(self, "replay1", path)
 	cmd.Env = append(os.Environ(), "GOMAXPROCS=2")
 	cmd.Stdout = os.Stdout
@@ -416,7 +421,15 @@ func check(prop, tier string) int {
 	defer os.RemoveAll(dir)
 	fmt.Printf("ionsim check property=%s scenario=%s tier=%s VERIF_SEED=%d workers=%d indices=%d\n", prop, s.Name(), tier, seed, W, s.Indices(tier))
 
-	stallLimit := time.Duration(envInt("IONSIM_STALL_S", 120)) * time.Second
+	// A case normally takes well under a millisecond (inputs are a few KiB at most): a worker that sits on one index
+	// for this long is stuck in a loop that touches no seam (or in runaway arithmetic).
+	stallDefault := int64(120)
+	if prop == "C06" {
+		stallDefault = 30
+	}
+	stallLimit := time.Duration(envInt("IONSIM_STALL_S", stallDefault)) * time.Second
+	hangs := 0
+	gaveUp := false
 	infra := false
 	var extra []scenario.Violation // violations found by the parent (death / hang / race report)
 	deaths := 0
@@ -472,11 +485,18 @@ func check(prop, tier string) int {
 					fmt.Printf("worker %d stalled for %v at index %d; killing it\n", p.w, stallLimit, ix)
 					p.cmd.Process.Kill()
 					<-p.done
-					v, ok := investigate(self, s, prop, tier, seed, p.w, W, ix, dir, "hang", stallLimit*10)
+					if hangs >= 1 {
+						// a hang is already confirmed and will be reported: do not spend 10x the limit on every further one
+						fmt.Printf("stall at index %d not investigated (%d hangs already confirmed); this worker's remaining indices are dropped\n", ix, hangs)
+						gaveUp = true
+						continue
+					}
+					v, ok := investigate(self, s, prop, tier, seed, p.w, W, ix, dir, "hang", stallLimit*4)
 					if ok {
 						extra = append(extra, v)
+						hangs++
 					} else {
-						fmt.Printf("stall at index %d did not reproduce with a 10x limit: infrastructure trouble\n", ix)
+						fmt.Printf("stall at index %d did not reproduce with a 4x limit: infrastructure trouble\n", ix)
 						infra = true
 					}
 					next = append(next, spawn(self, prop, tier, seed, p.w, W, ix+1, dir, false))
@@ -635,7 +655,7 @@ func check(prop, tier string) int {
 		rf := replayFile{Property: prop, Scenario: s.Name(), Clause: mv.Clause, Signature: mv.Signature, Detail: mv.Detail, Seed: mv.Seed, Index: mv.Index, ShrinkRun: execs, Case: mv.Case}
 		b, _ := json.MarshalIndent(rf, "", " ")
 		ioutil.WriteFile(path, b, 0644)
-		confirmed := confirm(self, path, stallLimit*10)
+		confirmed := confirm(self, path, stallLimit*4+60*time.Second)
 		switch confirmed {
 		case 1:
 			violLines = append(violLines, fmt.Sprintf("VIOLATION property=%s replay=%s", prop, path))
@@ -729,7 +749,7 @@ func check(prop, tier string) int {
 		fmt.Println("INFRASTRUCTURE TROUBLE (exit 2): see messages above")
 		return 2
 	}
-	if indices < expected && envInt("IONSIM_INDICES", 0) == 0 {
+	if indices < expected && envInt("IONSIM_INDICES", 0) == 0 && !gaveUp {
 		fmt.Printf("only %d of %d indices completed: infrastructure trouble\n", indices, expected)
 		return 2
 	}
@@ -816,7 +836,7 @@ func investigate(self string, s scenario.Scenario, prop, tier string, seed uint6
 	detail := fmt.Sprintf("worker process died (%v) while running this case (fatal runtime error or resource exhaustion); reproduced in isolation", err)
 	if hung {
 		clause = prop + ".HANG"
-		detail = fmt.Sprintf("case did not finish within %v (10x the stall limit) when re-run alone", limit)
+		detail = fmt.Sprintf("case did not finish within %v (4x the stall limit) when re-run alone", limit)
 	}
 	if rerr != nil || len(b) == 0 {
 		// the scenario has no per-case write-ahead: identify by seed and index
